@@ -438,12 +438,18 @@ def generate(rng, idx, tier, variant):
         make_integer_model(rng, spec)
     ops = []
     two = rng.random() < 0.3  # a sibling instance of the same class takes part in the history
+    wide = spec.get('dtype') == 'float32' and rng.random() < 0.6
+    if wide:
+        two = False
+        ops.append({'op': 'add_variable', 'obj': 0, 'name': 'NW', 'v': 1.0, 'dtype': 'float64', 'check': True})
     last_t = None
     for _ in range(rng.choice([1, 1, 2, 3, 3, 6])):
         new_ops = gen_solve_op(rng, spec, variant, idx, tier)
         who = rng.randrange(2) if two else 0
         for o in new_ops:
             o['obj'] = who
+            if wide and o.get('plan') and '*' in o['plan']:
+                o['plan']['*']['drift'] = {'name': 'NW', 'd': rng.choice([2.0**-28, 2.0**-28, 0.0, 1.0, 2.0**-40])}
             if o['op'] in ('solve_t', 'solve_period', 'solve1'):
                 # history: re-solve the period of the previous call (after a failure, a skip, a success) now and then
                 if last_t is not None and rng.random() < 0.35:
@@ -728,7 +734,8 @@ def do_solve(m, span, spec, op, endo, check, exo, ctx, step):
         't': t_seen,
         'endo': endo,
         'endo_offset': list(m.endogenous),
-        'check': check,
+        'check': list(m.__dict__['check']) if (spec['kind'] == 'scripted' and isinstance(m.__dict__.get('check'), list)) else check,
+        'drift_name': ((op.get('plan') or {}).get('*') or {}).get('drift', {}).get('name'),
         'exo': exo,
         'snap': snap,
         'post': post,
@@ -738,7 +745,8 @@ def do_solve(m, span, spec, op, endo, check, exo, ctx, step):
         'scripted': spec['kind'] == 'scripted',
         'feasible': True,
         'np_err': ctx.np_err,
-        'dtype': spec.get('dtype'),
+        # (the step is taken in the model's dtype only if every check variable has it: NumPy promotes a mixed list)
+        'dtype': spec.get('dtype') if all(m.__dict__['_' + nm_].dtype == m.__dict__['dtype'] for nm_ in m.__dict__.get('check', []) if ('_' + nm_) in m.__dict__) else None,
         'shorter_than_script': shorter_than_script(spec),
     }
     if spec.get('dtype'):
@@ -823,7 +831,13 @@ def execute(schedule, ctx):
             continue
         if op['op'] == 'add_variable':
             if op['name'] not in m.__dict__['index']:
-                m.add_variable(op['name'], op['v'])
+                if op.get('dtype') == 'float64':
+                    m.add_variable(op['name'], op['v'], dtype=float)  # a variable of a dtype of its own (wider than the model's)
+                    if op.get('check'):
+                        m.__dict__['check'].append(op['name'])  # ... that the user adds to the convergence check
+                        ctx.probe('check-variable-of-another-dtype-than-the-models')
+                else:
+                    m.add_variable(op['name'], op['v'])
             ctx.probe('history:add_variable')
             ctx.log(step, 'add_variable')
             ctx.outcome('add_variable', 'ok')
